@@ -80,6 +80,10 @@ func runQuery(dir, name, query string, timeoutS int, waitAll bool) SolverResult 
 				st = first
 			case "timeout":
 				st = "timeout"
+			default:
+				if strings.HasPrefix(first, "(error") {
+					st = "error"
+				}
 			}
 			ch <- ans{b.name, st, s, secs}
 		}(b)
@@ -104,6 +108,16 @@ func runQuery(dir, name, query string, timeoutS int, waitAll bool) SolverResult 
 	}
 	if res.Status == "unknown" {
 		res.Output = unknownOut
+		// every back end rejected the text: the query is malformed (a defect of the generator)
+		nerr := 0
+		for _, st := range res.All {
+			if st == "error" {
+				nerr++
+			}
+		}
+		if nerr > 0 && nerr == len(res.All) {
+			res.Status = "error"
+		}
 	}
 	return res
 }
